@@ -219,10 +219,7 @@ def run(ctx):
     for kf in ctx.known:
         if kf.get("status") != "known" or not kf.get("witness"):
             continue
-        text = open(os.path.join(VERIF, kf["witness"])).read()
-        wl, _rc, _err = ctx.script(text.split("--- script", 1)[1].lstrip("\n"))
-        obs = [l[len("observed-last "):].strip() for l in text.split("\n") if l.startswith("observed-last ")]
-        kf_still[kf["id"]] = bool(wl) and any(o == wl[-1].strip() for o in obs)
+        kf_still[kf["id"]] = bool(ctx.witness_still_fails(kf))
         if kf_still[kf["id"]]:
             ctx.known_finding(kf)
     rng = ctx.rng
